@@ -1193,6 +1193,25 @@ func checkBufferedClose(w *World, r *Report) {
 		if len(calls) == 0 || calls[0] != "bufio.Writer.Flush" {
 			okAll = false
 		}
+		closed := false
+		var flushCall ssa.Value
+		for _, in := range p.Instrs {
+			if c, ok := in.(*ssa.Call); ok {
+				switch calleeName(c) {
+				case "os.File.Close":
+					closed = true
+				case "bufio.Writer.Flush":
+					flushCall = c
+				}
+			}
+		}
+		if !closed && len(calls) > 1 && flushCall != nil {
+			// flush failed and its error is returned with context (fmt.Errorf built from it): on the non-nil edge
+			if !strings.Contains(ret, "bufio.Writer.Flush(") || !strings.HasPrefix(ret, "fmt.Errorf(") || !pathOnNonNilEdge(p, flushCall) {
+				okAll = false
+			}
+			continue
+		}
 		if len(calls) == 1 {
 			// flush failed: its error is returned - on the edge where that error is NOT nil
 			rv := p.Ret.Results[0]
